@@ -130,6 +130,7 @@ class ParkingClock:
         self.parked: dict[int, float] = {}
         self.calls: dict[int, int] = {}
         self.ticks = 0
+        self._pending: dict[int, int] = {}
 
     def time(self):
         return self._wall0 + self.now
@@ -180,7 +181,18 @@ class ParkingClock:
                         break
                     self.cond.wait(0.01)
                 else:
+                    self._pending = woken
                     return False
+
+    def settle(self, budget=3000):
+        """after an advance() that gave up: wait until the threads it woke have parked again."""
+        with self.cond:
+            for _ in range(budget):
+                if not any(self.calls[tid] == c for tid, c in self._pending.items()):
+                    self._pending = {}
+                    return True
+                self.cond.wait(0.01)
+        return False
 
     def release(self):
         """switch to free-running so that stop_all() can join the housekeeping threads; the logical time stays frozen."""
